@@ -312,6 +312,13 @@ fn cases(quick: bool) -> Vec<Case> {
                 }
             }
         }
+        // a message beyond 2^30 bytes (the largest max_allowed_packet a MySQL server accepts; the
+        // wire format itself has no such limit): 65 cells of 2^24 bytes in one text row
+        if !quick && *cap == usize::MAX {
+            let n = 65usize;
+            let cell = 1usize << 24;
+            v.push(Case { label: format!("text row of {} cells of 2^24 bytes each ({} bytes in one message)", n, n * (cell + 9)), shape: Shape::TextCells(vec![cell; n]), msg_len: n * (cell + 9), write_cap: *cap, fault: None, req_seq: 0 });
+        }
         // large ERR message and column name
         for d in if quick { vec![0i64] } else { vec![-1i64, 0, 1] } {
             let l = (MAXP as i64 + d) as usize;
